@@ -151,7 +151,7 @@ func (t *mTx) build(c *mon.Ctx) *bt.Tx {
 	if t.Pre == nil && !c.Replay {
 		t.pickPre()
 	}
-	tx := t.shape().Build()
+	tx := t.shape().BuildShared()
 	for _, p := range t.Pre {
 		switch p {
 		case "queries":
@@ -425,6 +425,12 @@ func newKey(b []byte) *mKey {
 // p2pkh is the locking script this key can spend.
 func (k *mKey) p2pkh() []byte { return gen.P2PKH(k.pkh) }
 
+// p2pkhUncompressed is the P2PKH script committing to the key's 65-byte
+// serialisation (an output of the same key as older wallets made them).
+func (k *mKey) p2pkhUncompressed() []byte {
+	return gen.P2PKH(crypto.Hash160(k.priv.PubKey().SerialiseUncompressed()))
+}
+
 // signInputs signs the listed inputs through the library's public unlocker
 // (FillAllInputs when every input is listed, FillInput otherwise).
 func signInputs(tx *bt.Tx, k *mKey, idx []int) error {
@@ -451,7 +457,7 @@ func signShape(t *mTx, k *mKey, idx []int) (changed bool, err error) {
 	if len(idx) == 0 {
 		return false, nil
 	}
-	tx := t.shape().Build()
+	tx := t.shape().BuildShared()
 	var serr error
 	if pv, _ := mon.TryQuiet(func() { serr = signInputs(tx, k, idx) }); pv != nil {
 		return false, fmt.Errorf("signing panicked: %v", pv)
